@@ -5,6 +5,7 @@ package net
 
 import (
 	"context"
+	"io"
 	rn "net"
 	"net/netip"
 	"syscall"
@@ -32,7 +33,6 @@ type (
 	ListenConfig = rn.ListenConfig
 	Resolver     = rn.Resolver
 
-	Buffers             = rn.Buffers
 	DNSConfigError      = rn.DNSConfigError
 	DNSError            = rn.DNSError
 	Flags               = rn.Flags
@@ -52,6 +52,59 @@ type (
 	UnixListener        = rn.UnixListener
 	UnknownNetworkError = rn.UnknownNetworkError
 )
+
+// Buffers is net.Buffers. On a connection of the virtual network WriteTo hands all buffers over in one
+// write, as writev does on a *net.TCPConn (the case the library is written for); on any other writer it
+// writes buffer by buffer like the original.
+type Buffers [][]byte
+
+func (v *Buffers) WriteTo(w io.Writer) (n int64, err error) {
+	if c, ok := w.(*vnet.Conn); ok {
+		var all []byte
+		for _, b := range *v {
+			all = append(all, b...)
+		}
+		nb, err := c.Write(all)
+		v.consume(int64(nb))
+		return int64(nb), err
+	}
+	for _, b := range *v {
+		nb, err := w.Write(b)
+		n += int64(nb)
+		if err != nil {
+			v.consume(n)
+			return n, err
+		}
+	}
+	v.consume(n)
+	return n, nil
+}
+
+func (v *Buffers) Read(p []byte) (n int, err error) {
+	for len(p) > 0 && len(*v) > 0 {
+		n0 := copy(p, (*v)[0])
+		v.consume(int64(n0))
+		p = p[n0:]
+		n += n0
+	}
+	if len(*v) == 0 {
+		err = io.EOF
+	}
+	return
+}
+
+func (v *Buffers) consume(n int64) {
+	for len(*v) > 0 {
+		ln0 := int64(len((*v)[0]))
+		if ln0 > n {
+			(*v)[0] = (*v)[0][n:]
+			return
+		}
+		n -= ln0
+		(*v)[0] = nil
+		*v = (*v)[1:]
+	}
+}
 
 var (
 	DefaultResolver     = rn.DefaultResolver
